@@ -6,6 +6,7 @@ import (
 	"fmt"
 	"os"
 	"os/exec"
+	"sort"
 	"strconv"
 	"strings"
 	"sync"
@@ -28,6 +29,9 @@ func (prop) Parallel() int     { return 8 }
 type input struct {
 	S []byte `json:"s"`           // base64 in JSON: arbitrary bytes survive
 	Q string `json:"q,omitempty"` // the same string Go-quoted, for readers only
+	// Before: a history (corpus / replays of the history passes): these inputs are converted first, in a fresh child
+	// process, then S; all seven answers for S must be the ones of a fresh child process that converts S alone.
+	Before []string `json:"before,omitempty"`
 }
 
 var convs = []func(string) string{
@@ -333,6 +337,21 @@ func (prop) Run(in json.RawMessage, _ string) core.Result {
 			}
 		}
 	}
+	// a history: S after Before in one fresh process against S alone in another
+	if len(inp.Before) > 0 {
+		per := len(convs) + 1
+		alone, err1 := histChild([]string{s})
+		after, err2 := histChild(append(append([]string{}, inp.Before...), s))
+		if err1 != nil || err2 != nil || len(alone) != per || len(after) != per*(len(inp.Before)+1) {
+			res.Notes = append(res.Notes, fmt.Sprintf("history %q then %q: child failed: %v %v", inp.Before, s, err1, err2))
+		} else {
+			for k := 0; k < per; k++ {
+				if x, y := alone[k], after[len(after)-per+k]; x != y {
+					res.GoViolations = append(res.GoViolations, fmt.Sprintf("not a pure function of its input (history): function #%d (0=Split, 1..6=the six converters) returns %q for %q in a fresh process, but %q when %q had been converted before it in the same process", k, x, s, y, inp.Before))
+				}
+			}
+		}
+	}
 	res.Observed = obs
 
 	// Coq case
@@ -421,9 +440,14 @@ func (prop) Shrink(in json.RawMessage) []json.RawMessage {
 	var out []json.RawMessage
 	add := func(t string) {
 		if t != s {
-			b, _ := json.Marshal(input{S: []byte(t), Q: strconv.Quote(t)})
+			b, _ := json.Marshal(input{S: []byte(t), Q: strconv.Quote(t), Before: inp.Before})
 			out = append(out, b)
 		}
+	}
+	for i := range inp.Before { // a shorter history first
+		h := append(append([]string{}, inp.Before[:i]...), inp.Before[i+1:]...)
+		b, _ := json.Marshal(input{S: inp.S, Q: inp.Q, Before: h})
+		out = append(out, b)
 	}
 	if len(s) > 2 {
 		add(s[:len(s)/2])
@@ -470,6 +494,290 @@ func histRun(seq []string) []string {
 	return out
 }
 
+// ---- words that COLLIDE under a case normalisation (added after seeded change C19-m) ----
+//
+// A memo inside a converter is keyed by something; "the word, case-normalised" is the natural key (RPC, Rpc and rpc all
+// become Rpc).  It is wrong exactly for words that are equal under the normalisation (strings.ToLower, strings.ToUpper,
+// simple or full case folding) and still have different Title/Upper/Lower results: a capital sigma at the end of a word
+// lower-cases to the final form while a typed small sigma stays; KELVIN/OHM/ANGSTROM SIGN, dotted capital I, capital sharp s,
+// the upper-case digraphs lower-case to a letter that has another capital; long s, dotless i, final sigma, the Greek symbol
+// letters upper-case to a letter that has another small form; ligatures and sharp s fold to two letters.
+//
+// collisionGroups: (a) computed from the unicode tables of the running toolchain - every SimpleFold orbit with at least
+// three members (k K KELVIN; s S long-s; sigma; the digraphs; mu/micro; Greek symbol letters; Cyrillic Extended-C ...) and
+// every rune whose ToLower/ToUpper leaves its orbit joined with the orbit it lands in (i I dotless-i dotted-I); (b) a fixed
+// list for the full (multi-rune) mappings of SpecialCasing.txt / CaseFolding.txt status F.
+var collisionGroups = func() [][]string {
+	var out [][]string
+	seen := map[rune]bool{}
+	orbit := func(r rune) []rune {
+		o := []rune{r}
+		for x := unicode.SimpleFold(r); x != r; x = unicode.SimpleFold(x) {
+			o = append(o, x)
+		}
+		return o
+	}
+	var iLike []rune
+	for r := rune(0x41); r < 0x20000; r++ {
+		if seen[r] || !utf8.ValidRune(r) {
+			continue
+		}
+		o := orbit(r)
+		in := func(x rune) bool {
+			for _, y := range o {
+				if x == y {
+					return true
+				}
+			}
+			return false
+		}
+		if l, u := unicode.ToLower(r), unicode.ToUpper(r); !in(l) || !in(u) {
+			iLike = append(iLike, r)
+		}
+		if len(o) >= 3 {
+			var g []string
+			for _, x := range o {
+				seen[x] = true
+				g = append(g, string(x))
+			}
+			out = append(out, g)
+		}
+	}
+	for _, r := range iLike { // the rune, the orbits of its lower and upper case
+		g := []string{string(r)}
+		for _, t := range []rune{unicode.ToLower(r), unicode.ToUpper(r)} {
+			if t != r {
+				for _, x := range orbit(t) {
+					g = append(g, string(x))
+				}
+			}
+		}
+		out = append(out, g)
+	}
+	out = append(out, [][]string{
+		{"i", "I", "ı", "İ", "i\u0307"},
+		{"ß", "\u1e9e", "ss", "SS", "Ss", "ſs"},
+		{"ŉ", "\u02bcn", "\u02bcN"},
+		{"\u01f0", "j\u030c", "J\u030c"},
+		{"ﬁ", "fi", "FI", "Fi"},
+		{"ﬀ", "ff", "FF", "Ff"},
+		{"ﬅ", "ﬆ", "st", "ST", "St", "ſt"},
+		{"\u0390", "\u1fd3", "ι\u0308\u0301", "Ι\u0308\u0301"},
+		{"\u1fb3", "\u1fbc", "αι", "ΑΙ", "Αι", "α\u0345"},
+		{"և", "եւ", "ԵՒ", "Եւ"},
+		{"ẚ", "a\u02be", "A\u02be"},
+	}...)
+	return out
+}()
+
+// namedCollisions: the groups that go through every position and placement in the quick tier too (the others: one
+// position, chosen at random; thorough: everything).
+var namedCollisions = map[string]bool{"σ": true, "ς": true, "\u212a": true, "\u2126": true, "\u212b": true, "ſ": true, "İ": true, "ı": true, "ǅ": true, "ß": true, "µ": true, "ϑ": true}
+
+// realCollisions: whole words, as typed (U+212A KELVIN SIGN, U+2126 OHM SIGN, U+212B ANGSTROM SIGN, U+1E9E capital sharp s are escaped).
+var realCollisions = [][]string{
+	{"ΟΔΟΣ", "οδοσ", "οδος", "Οδος", "Οδοσ", "ΟΔΟς"},
+	{"Kelvin", "kelvin", "\u212aelvin", "KELVIN", "\u212aELVIN"},
+	{"Ωmega", "ωmega", "\u2126mega", "ΩMEGA", "\u2126MEGA"},
+	{"Ångström", "ångström", "\u212bngström", "ÅNGSTRÖM", "\u212bNGSTRÖM"},
+	{"İstanbul", "istanbul", "Istanbul", "ıstanbul", "ISTANBUL", "İSTANBUL", "i\u0307stanbul"},
+	{"Maße", "maße", "MA\u1e9eE", "MASSE", "Masse", "masse", "MAßE"},
+	{"ǅungla", "ǆungla", "Ǆungla", "ǄUNGLA", "ǅUNGLA"},
+	{"ſecond", "second", "Second", "SECOND", "ſECOND"},
+	{"RPC", "Rpc", "rpc", "rPC"},
+	{"ΣΊΣΥΦΟΣ", "σίσυφος", "Σίσυφος", "σίσυφοσ", "ςίσυφος"},
+}
+
+// collisionClasses: a class is a list of WORDS that are equal under some case normalisation: the variants of one group
+// at one position of the word (whole word, first, middle, last rune) in a lower-case, an upper-case and a capitalised
+// ASCII context.  Final sigma needs the last position, the signs need the first one, long s / dotless i the middle.
+func collisionClasses(r *core.RNG, tier string) [][]string {
+	classes := append([][]string{}, realCollisions...)
+	for _, g := range collisionGroups {
+		all := tier == "thorough"
+		for _, v := range g {
+			if namedCollisions[v] {
+				all = true
+			}
+		}
+		pos := []int{0, 1, 2, 3}
+		if !all {
+			pos = []int{r.Intn(4)}
+		}
+		for _, p := range pos {
+			var c []string
+			for _, v := range g {
+				switch p {
+				case 0:
+					c = append(c, v)
+				case 1:
+					c = append(c, v+"elvin", v+"ELVIN")
+				case 2:
+					c = append(c, "ab"+v+"cd", "AB"+v+"CD", "Ab"+v+"cd")
+				default:
+					c = append(c, "od"+v, "OD"+v, "Od"+v)
+				}
+			}
+			classes = append(classes, c)
+		}
+	}
+	return classes
+}
+
+// placements: the word as first / middle / last word of a snake, a kebab and a camel input (and after a digit, where a
+// lower-case word starts without a separator), and alone.
+func placements(w string) []string {
+	return []string{w, w + "_foo_bar", "foo_" + w + "_bar", "foo_bar_" + w, w + "-foo-bar", "foo-" + w + "-bar", "foo-bar-" + w,
+		w + "FooBar", "foo" + w + "Bar", "fooBar" + w, "foo2" + w}
+}
+
+// foldKey: a coarse key under which all words of a collision class coincide (used only to order the candidates of the
+// minimal-history search: related inputs first).
+func foldKey(s string) string {
+	var b strings.Builder
+	for _, r := range s {
+		m := r
+		for x := unicode.SimpleFold(r); x != r; x = unicode.SimpleFold(x) {
+			if x < m {
+				m = x
+			}
+		}
+		b.WriteRune(m)
+	}
+	return b.String()
+}
+
+// collisionPass: every class is converted by as many fresh child processes as it has words; in process j the j-th word of
+// every class comes first (all its placements), then the others in rotation - so every word is, in one process, the first
+// of its class the library sees, and in the other processes it comes after each of the others.  A pure function gives
+// every input the same seven answers in every process.
+func collisionPass(r *core.RNG, tier string) (violations []string, notes []string, stats map[string]any) {
+	classes := collisionClasses(r, tier)
+	rot := 0
+	for _, c := range classes {
+		rot = max(rot, len(c))
+	}
+	order := func(j int) []string {
+		var seq []string
+		for _, c := range classes {
+			for i := range c {
+				seq = append(seq, placements(c[(i+j)%len(c)])...)
+			}
+		}
+		return seq
+	}
+	per := len(convs) + 1
+	type run struct {
+		seq []string
+		out []string
+		err error
+	}
+	runs := make([]run, rot)
+	var wg sync.WaitGroup
+	sem := make(chan struct{}, 8)
+	for j := range runs {
+		wg.Add(1)
+		sem <- struct{}{}
+		go func(j int) {
+			defer wg.Done()
+			defer func() { <-sem }()
+			runs[j].seq = order(j)
+			runs[j].out, runs[j].err = histChild(runs[j].seq)
+		}(j)
+	}
+	wg.Wait()
+	stats = map[string]any{"collision_classes": len(classes), "collision_processes": rot, "collision_inputs": len(runs[0].seq), "collision_calls": rot * per * len(runs[0].seq)}
+	// answers per input and process
+	type ans struct {
+		proc int
+		at   int
+	}
+	first := map[string]ans{}
+	for j, ru := range runs {
+		if ru.err != nil || len(ru.out) != per*len(ru.seq) {
+			return nil, []string{fmt.Sprintf("case-collision purity run skipped: process %d: %v (%d answers for %d inputs)", j, ru.err, len(ru.out), len(ru.seq))}, stats
+		}
+		for i, s := range ru.seq {
+			f, ok := first[s]
+			if !ok {
+				first[s] = ans{j, i}
+				continue
+			}
+			for k := 0; k < per; k++ {
+				x, y := runs[f.proc].out[f.at*per+k], ru.out[i*per+k]
+				if x == y {
+					continue
+				}
+				if len(violations) == 0 {
+					if v := minimalHistory(s, k, append(append([]string{}, runs[f.proc].seq[:f.at]...), ru.seq[:i]...)); v != "" {
+						violations = append(violations, v)
+					}
+				}
+				if len(violations) < 4 {
+					violations = append(violations, fmt.Sprintf("not a pure function of its input: function #%d (0=Split, 1..6=the six converters) returns %q for %q in a process that converted %d inputs before it (the last ones %q), but %q in a process that converted %d inputs before it (the last ones %q); the inputs are words that coincide under a case normalisation (lower / upper / fold) and differ in their title / upper / lower form",
+						k, x, s, f.at, tail(runs[f.proc].seq[:f.at], 3), y, i, tail(ru.seq[:i], 3)))
+				}
+			}
+		}
+	}
+	return violations, nil, stats
+}
+
+func tail(s []string, n int) []string {
+	if len(s) > n {
+		return s[len(s)-n:]
+	}
+	return s
+}
+
+// minimalHistory searches ONE earlier call that changes function k's answer for s with respect to a fresh process;
+// candidates that share a case-folded word with s are tried first, at most 400 child processes.
+func minimalHistory(s string, k int, before []string) string {
+	per := len(convs) + 1
+	alone, err := histChild([]string{s})
+	if err != nil || len(alone) != per {
+		return ""
+	}
+	keys := map[string]bool{}
+	for _, w := range camelcase.Split(foldKey(s)) {
+		keys[w] = true
+	}
+	rel := func(h string) int {
+		n := 0
+		for _, w := range camelcase.Split(foldKey(h)) {
+			if keys[w] && w != "foo" && w != "bar" {
+				n++
+			}
+		}
+		return n
+	}
+	seen := map[string]bool{s: true}
+	var cands []string
+	for _, h := range before {
+		if !seen[h] {
+			seen[h] = true
+			cands = append(cands, h)
+		}
+	}
+	sort.SliceStable(cands, func(i, j int) bool {
+		ri, rj := rel(cands[i]), rel(cands[j])
+		if ri != rj {
+			return ri > rj
+		}
+		return len(cands[i]) < len(cands[j])
+	})
+	if len(cands) > 400 {
+		cands = cands[:400]
+	}
+	for _, h := range cands {
+		if two, err := histChild([]string{h, s}); err == nil && len(two) == 2*per && two[per+k] != alone[k] {
+			return fmt.Sprintf("not a pure function of its input (minimal history): function #%d (0=Split, 1..6=the six converters) returns %q for %q in a fresh process, but %q when %q was converted before it in the same process (two calls; the two inputs contain words that coincide under a case normalisation and differ in their title / upper / lower form)",
+				k, alone[k], s, two[per+k], h)
+		}
+	}
+	return ""
+}
+
 func init() {
 	core.Children["c19-hist"] = func(args []string) int {
 		var seq []string
@@ -498,6 +806,15 @@ func histChild(seq []string) ([]string, error) {
 }
 
 func (prop) Extra(r *core.RNG, tier string, _ string) (violations []string, notes []string, stats map[string]any) {
+	violations, notes, stats = historyPass(r, tier)
+	v2, n2, st2 := collisionPass(r, tier)
+	for k, v := range st2 {
+		stats[k] = v
+	}
+	return append(violations, v2...), append(notes, n2...), stats
+}
+
+func historyPass(r *core.RNG, tier string) (violations []string, notes []string, stats map[string]any) {
 	ws := []string{"id", "ID", "user", "HTML", "v2", "99", "é", "Über"}
 	for i := 0; i < 12; i++ { // fresh words nobody converted before
 		var b strings.Builder
